@@ -5,6 +5,8 @@ import (
 
 	"github.com/Vedant9500/WTF/internal/database"
 	"github.com/Vedant9500/WTF/internal/history"
+	"github.com/Vedant9500/WTF/internal/recovery"
+	"github.com/Vedant9500/WTF/internal/validation"
 )
 
 // ---- C17 (as far as it can be decided without the OS process): the whole command tree is
@@ -29,6 +31,12 @@ func c17DB(path string) []database.Command {
 		{Command: "gzip file", Description: "compress one file"},
 		{Command: "du -sh dir", Description: "size of directory", Platform: []string{"linux"}},
 		{Command: "cat f | wc -l", Description: "count lines compress nothing", Pipeline: true},
+		// a command longer than 48 bytes but shorter than 45 characters (table format truncation)
+		{Command: "圧縮する圧縮する圧縮する圧縮する圧縮する", Description: "compress (ja)", Niche: "日本語日本語日本語"},
+	}
+	// seven entries that only the last-resort substring search finds for "xq rchiv"
+	for i := 0; i < 7; i++ {
+		cmds = append(cmds, database.Command{Command: "marchive" + string(rune('a'+i)), Description: "pack"})
 	}
 	verifFSPutDoc(path, "yaml", cmds)
 	return cmds
@@ -86,7 +94,7 @@ func VerifHarness_C17_SearchOutput() {
 	c17DB(dbPath)
 	limit := []string{"", "1", "2", "3", "100"}[verifIntRange("limit", 0, 4)]
 	format := []string{"", "list", "table"}[verifIntRange("format", 0, 2)]
-	q := []string{"compress directory", "compress", "size"}[verifIntRange("query", 0, 2)]
+	q := []string{"compress directory", "compress", "size", "xq rchiv", "compress directory ?"}[verifIntRange("query", 0, 4)]
 	args := []string{q, "--database", dbPath}
 	if verifBool("searchWord") {
 		args = []string{"search", q, "--database", dbPath}
@@ -131,14 +139,28 @@ func VerifHarness_C17_SearchOutput() {
 	if err != nil {
 		return
 	}
-	want := db.SearchUniversal(q, database.SearchOptions{Limit: eff, UseFuzzy: true, FuzzyThreshold: -30, UseNLP: true})
+	searched := q
+	if cq, verr := validation.ValidateQuery(q); verr == nil {
+		searched = cq // the query as cleaned by validation is what is searched, printed and recorded
+	}
+	want := db.SearchUniversal(searched, database.SearchOptions{Limit: eff, UseFuzzy: true, FuzzyThreshold: -30, UseNLP: true})
+	if len(want) == 0 {
+		// the last-resort recovery search, with the limit in force
+		if rec, rerr := recovery.NewSearchRecovery().RecoverFromSearchFailureWithLimit(searched, nil, db, eff); rerr == nil {
+			want = rec
+		}
+	}
 	// printed result rows, in order
 	var printed []string
 	for _, line := range strings.Split(out, "\n") {
 		line = strings.ReplaceAll(strings.ReplaceAll(strings.ReplaceAll(strings.ReplaceAll(line, "\x1b[0m", ""), "\x1b[1m", ""), "\x1b[36m", ""), "\x1b[33m", "")
 		for _, c := range db.Commands {
 			if format == "table" {
-				if len(line) > 4 && line[0] >= '1' && line[0] <= '9' && strings.HasPrefix(strings.TrimLeft(line[1:], "0123456789 "), c.Command) {
+				disp := c.Command // the table shows long commands cut to 45 bytes + "..."
+				if len(disp) > 48 {
+					disp = disp[:45] + "..."
+				}
+				if len(line) > 4 && line[0] >= '1' && line[0] <= '9' && strings.HasPrefix(strings.TrimLeft(line[1:], "0123456789 "), disp) {
 					printed = append(printed, c.Command)
 				}
 			} else if len(line) > 3 && line[0] >= '1' && line[0] <= '9' && strings.HasSuffix(line, ". "+c.Command) {
@@ -158,10 +180,33 @@ func VerifHarness_C17_SearchOutput() {
 	lerr := sh.Load()
 	verifAssert(lerr == nil && len(sh.Entries) == 1, "C17: each search leaves exactly one corresponding newest entry in the history")
 	if lerr == nil && len(sh.Entries) == 1 {
-		verifAssert(sh.Entries[0].Query == q && sh.Entries[0].ResultsCount == len(want), "C17: the history entry corresponds to the search (query, number of results)")
+		verifAssert(sh.Entries[0].Query == searched && sh.Entries[0].ResultsCount == len(want), "C17: the history entry corresponds to the search (query, number of results)")
 	}
 	verifReach("searched")
 	if len(want) > 0 {
 		verifReach("nonempty")
 	}
+}
+
+// C14 at the command line: the query that is searched, printed and recorded is exactly the
+// validated one
+func VerifHarness_C14_CLIQuery() {
+	home := verifFSHome()
+	dbPath := home + "/db/commands.yml"
+	c17DB(dbPath)
+	raw := []string{"compress directory ?", "compress files ...", "  compress   directory  ", "compress!", "what.is.this"}[verifIntRange("raw", 0, 4)]
+	want, verr := validation.ValidateQuery(raw)
+	out, panicked := c17Run(raw, "--database", dbPath)
+	verifAssert(!panicked, "C17: every documented sub-command starts and finishes without crashing")
+	if verr != nil {
+		return
+	}
+	verifAssert(strings.Contains(out, "Searching for: "+want+"\n"), "C14: the command searches for the query exactly as validation returned it")
+	sh := history.NewSearchHistory(history.DefaultHistoryPath(), 100)
+	if sh.Load() == nil && len(sh.Entries) == 1 {
+		verifAssert(sh.Entries[0].Query == want, "C14: the recorded query is the validated query (clean, idempotent under re-validation)")
+		again, aerr := validation.ValidateQuery(sh.Entries[0].Query)
+		verifAssert(aerr == nil && again == sh.Entries[0].Query, "C14: an already validated query comes back unchanged")
+	}
+	verifReach("accepted")
 }
